@@ -1,6 +1,6 @@
 """C08 - failures are AmpycloudError only; guard discipline in front of third-party numerics.
 Totality / termination of pandas, scikit-learn, statsmodels is NOT claimed (not statically decidable)."""
-from sa.rules import exceptions
+from sa.rules import exceptions, baseheight
 
 LEVEL = 'other'
 
@@ -11,6 +11,8 @@ def check(ctx):
     exceptions.mixture_preconditions(ctx, 'C08-R2')
     exceptions.fluffer_precondition(ctx, 'C08-R2')
     exceptions.percentile_precondition(ctx, 'C08-R2')
+    exceptions.empty_selection_reductions(ctx, 'C08-R2')
+    baseheight.routine_internals(ctx, 'C08-R2')
     exceptions.okta_is_python_int(ctx, 'C08-R2')
     exceptions.decorators_pass_through(ctx, 'C08-R3')
     ctx.undecided += ['termination and totality of the third-party numerics for every accepted input',
